@@ -106,7 +106,11 @@ def build_cases(tier, seed):
 def run(tier):
     res = fw.Result("C04", tier)
     cases = build_cases(tier, fw.seed())
-    cc.run_checked(res, cases, "asan", oracle, relevant, "C04", known_class=KNOWN)
+    def post(c):
+        res.count("callback_nested_calls", sum(1 for r in c.recs if r.k == ">" and r.depth))
+        res.count("events_retained", sum(1 for r in c.recs if r.k == "<" and r.op == "evt_retain" and r.ret is not None and r.ret >= 0))
+        res.count("autofree_payload_frees", sum(1 for r in c.recs if r.k == "F" and r.kind == "pay"))
+    cc.run_checked(res, cases, "asan", oracle, relevant, "C04", known_class=KNOWN, post=post)
     # second opinion: fresh scenarios of the same profiles on the plain build under valgrind memcheck (reads of
     # uninitialised memory are invisible to ASan); a case valgrind is too slow for is inconclusive, not a verdict
     mc = [c for c in build_cases(tier, fw.seed() + 7777) if c.profile in ("mixed", "hostile_lifetime", "last_ref", "ctx_gone")]
@@ -115,9 +119,6 @@ def run(tier):
     res.count("cases_under_memcheck", len(mc))
     for p in ("mixed", "hostile_lifetime"):
         res.count("cases_" + p, sum(1 for c in cases if c.profile == p))
-    res.count("callback_nested_calls", sum(1 for c in cases for r in c.recs if r.k == ">" and r.depth))
-    res.count("events_retained", sum(1 for c in cases for r in c.recs if r.k == "<" and r.op == "evt_retain" and r.ret is not None and r.ret >= 0))
-    res.count("autofree_payload_frees", sum(1 for c in cases for r in c.recs if r.k == "F" and r.kind == "pay"))
     fw.finish(res, RULE, ASSUME)
 
 
